@@ -92,6 +92,53 @@ theorem liveLen_spec (A : Auto σ) (q : σ) (w : List UInt8) :
       simp only [List.take_succ_cons, runA, hs, Option.bind_some, List.length_cons]
       exact ⟨this.1, fun h => this.2 (by omega)⟩
 
+/-- every item of the specification is non-empty, and a token is a word accepted in the state it carries -/
+def ItemOk (A : Auto σ) : Item σ → Prop
+  | .tok b q => b ≠ [] ∧ runA A A.start b = some q ∧ A.accepting q = true
+  | .raw b => b ≠ []
+
+theorem tokenize_sound (A : Auto σ) (w : List UInt8) : ∀ it ∈ (tokenize A w).1, ItemOk A it := by
+  fun_induction tokenize A w with
+  | case1 => simp
+  | case2 input hne hp => simp
+  | case3 input hne hd n q hl r ih =>
+    intro it hit
+    simp only [List.mem_cons] at hit
+    rcases hit with rfl | hit
+    · have := longestAcc_spec A A.start input
+      rw [hl] at this
+      obtain ⟨h1, h2, h3, h4, _⟩ := this
+      refine ⟨?_, h3, h4⟩
+      intro h0
+      have := congrArg List.length h0
+      simp only [List.length_take, List.length_nil] at this
+      omega
+    · exact ih it hit
+  | case4 input hne hd hl m r ih =>
+    intro it hit
+    simp only [List.mem_cons] at hit
+    rcases hit with rfl | hit
+    · simp only [ItemOk]
+      intro h0
+      have := congrArg List.length h0
+      have hpos : 0 < input.length := List.length_pos_iff.mpr hne
+      simp only [List.length_take, List.length_nil] at this
+      omega
+    · exact ih it hit
+
+/-- the specification itself covers the input: items in order, then the pending rest -/
+theorem tokenize_cover (A : Auto σ) (w : List UInt8) :
+    (tokenize A w).1.flatMap Item.bytes ++ (tokenize A w).2 = w := by
+  fun_induction tokenize A w with
+  | case1 => simp
+  | case2 input hne hp => simp
+  | case3 input hne hd n q hl r ih =>
+    simp only [List.flatMap_cons, Item.bytes, List.append_assoc]
+    rw [ih, List.take_append_drop]
+  | case4 input hne hd hl m r ih =>
+    simp only [List.flatMap_cons, Item.bytes, List.append_assoc]
+    rw [ih, List.take_append_drop]
+
 /-- the check run by the driver on every installed table is sound -/
 theorem Table.termOk_sound (t : Table) (h : t.termOk = true) : t.auto.TermOk := by
   intro s hterm b
